@@ -174,12 +174,33 @@ static void run_svec(std::istringstream& in) {
     puts(out.str().c_str());
 }
 
+// emplace forms: emplace_back / emplace_front must construct with PARENTHESES (allocator_traits::construct), so that
+// (count, value) argument packs reach the (count, value) constructor and not an initializer_list one.
+// case line: emplace <n> <v>   output: E <back.size>:<back[0]> <front.size>:<front[0]> <str_back> <str_front>
+static void run_emplace(std::istringstream& in) {
+    long n = 0, v = 0; in >> n >> v;
+    std::ostringstream out;
+    {
+        tlx::RingBuffer<std::vector<int>> r(4);
+        r.emplace_back(static_cast<size_t>(n), static_cast<int>(v));      // n copies of v
+        r.emplace_front(static_cast<size_t>(n));                           // n zeros
+        r.emplace_back();                                                  // empty vector
+        out << "E " << r[1].size() << ":" << (r[1].empty() ? -1 : r[1][0]) << " " << r[0].size() << ":" << (r[0].empty() ? -1 : r[0][0])
+            << " " << r[2].size();
+        tlx::RingBuffer<std::string> t(3);
+        t.emplace_back(static_cast<size_t>(n), static_cast<char>('a' + v % 26));   // n characters
+        t.emplace_front("xyz", static_cast<size_t>(2));                    // first two characters of the literal
+        out << " " << t.back() << " " << t.front();
+    }
+    puts(out.str().c_str());
+}
+
 int main(int argc, char** argv) {
     if (argc < 2) return 2;
     std::ifstream f(argv[1]); std::string line;
     while (std::getline(f, line)) {
         std::istringstream in(line); std::string kind; in >> kind;
-        if (kind == "ring") run_ring(in); else if (kind == "svec") run_svec(in); else puts("?");
+        if (kind == "ring") run_ring(in); else if (kind == "svec") run_svec(in); else if (kind == "emplace") run_emplace(in); else puts("?");
     }
     return 0;
 }
